@@ -232,7 +232,7 @@ def cases_op(rng, tier):
     adjguard = measured_adjguard()
     nper = 30 if tier == "quick" else 200
     for mode in MODES:
-        for k in range(nper):
+        for k in range(nper * (3 if mode == 'constant' else 1)):
             ndim = rng.choice([1, 1, 2])
             dom, nnew, offs, flags, kw_flags = [], [], [], [], []
             mins, maxs, shape = [], [], []
@@ -245,7 +245,10 @@ def cases_op(rng, tier):
                 ext = (n - 0.5 * (bl + br)) * csz
                 lim = {'symmetric': n - 1, 'periodic': n}.get(mode, 4)
                 grow = k % 4 != 3
-                if grow:
+                if ndim > 1 and a > 0 and rng.random() < 0.3 or (ndim == 1 and k % 11 == 10):
+                    m_ = n                                   # axis NOT resized, but an offset is given for it
+                    off = rng.choice([None, 0, 1, 2, 2])
+                elif grow:
                     pl, pr = rng.randint(0, min(lim, 3)), rng.randint(0, min(lim, 3))
                     m_ = n + pl + pr
                     off = rng.choice([None, pl, pl, rng.randint(0, pl + pr)])
@@ -256,14 +259,18 @@ def cases_op(rng, tier):
                 dom.append((mn, mn + ext, n, (bl, br)))
                 mins.append(mn); maxs.append(mn + ext); shape.append(n)
                 nnew.append(m_); offs.append(off); flags.append((bl, br)); kw_flags.append((nbl, nbr))
-            c = rng.choice([0, 0, 1.5, -2]) if mode == 'constant' else 0
+            # pad constants incl. values not representable in float32 / int64 (they are cast to the RANGE dtype)
+            c = rng.choice([0, 1.5, -2, 0.1, 0.3, 0.5, -0.7, 0.1, 0.5]) if mode == 'constant' else rng.choice([0, 0, 0.1])
             # attributes the inferred range must inherit from the domain unless given in discr_kwargs
             dom_w = rng.choice([None, None, 2.0, 0.5, 3.0])
             dom_exp = 2.0 if dom_w is None or rng.random() < 0.8 else 1.0
-            dom_dt = rng.choice(['float64', 'float64', 'float32'])
+            dom_dt = rng.choice(['float64', 'float64', 'float32', 'float32', 'int64'])
             kw_w = rng.choice([None, None, None, 4.0])
             kw_exp = None if rng.random() < 0.85 else 1.0
-            kw_dt = None if rng.random() < 0.85 else rng.choice(['float64', 'float32'])
+            kw_dt = None if rng.random() < 0.6 else rng.choice(['float64', 'float32'])
+            if dom_dt == 'int64':
+                dom_w, dom_exp = None, 2.0
+                kw_dt = rng.choice([None, 'float64', 'float64'])
             dkw = {'nodes_on_bdry': kw_flags}
             if kw_w is not None:
                 dkw['weighting'] = kw_w
@@ -272,10 +279,13 @@ def cases_op(rng, tier):
             if kw_dt is not None:
                 dkw['dtype'] = kw_dt
             xkw = {} if dom_w is None else {'weighting': dom_w}
-            X = odl.uniform_discr(mins, maxs, shape, nodes_on_bdry=flags, exponent=dom_exp, dtype=dom_dt, **xkw)
             try:
-                op = odl.ResizingOperator(X, ran_shp=tuple(nnew), offset=None if all(o is None for o in offs)
-                                          else [o for o in offs], pad_mode=mode, pad_const=c, discr_kwargs=dkw)
+                X = odl.uniform_discr(mins, maxs, shape, nodes_on_bdry=flags, exponent=dom_exp, dtype=dom_dt, **xkw)
+                offarg = None if all(o is None for o in offs) else [o for o in offs]
+                if offarg is not None and len(set(offs)) == 1 and rng.random() < 0.5:
+                    offarg = offs[0]                       # scalar offset for all axes
+                op = odl.ResizingOperator(X, ran_shp=tuple(nnew), offset=offarg, pad_mode=mode, pad_const=c,
+                                          discr_kwargs=dkw)
             except Exception:
                 continue
             explicit = (k % 3 == 1)
@@ -301,7 +311,11 @@ def cases_op(rng, tier):
             inv = _out(lambda: op.inverse(op(xin)))
             kept = (xa.tobytes() == bx and ya.tobytes() == by and ay2 == ay and fx2 == fx
                     and np.array_equal(np.asarray(xin), x) and np.array_equal(np.asarray(yin), y))
-            DT = {'float64': 0, 'float32': 1}
+            DT = {'float64': 0, 'float32': 1, 'int64': 2}
+            NPDT = ['float64', 'float32', 'int64']
+            with np.errstate(all='ignore'):
+                ccast = [float(np.array(c, dtype=t)) for t in NPDT]                 # pad_const cast to a dtype
+                cinv = [[float(np.array(np.array(c, dtype=t), dtype=u)) for u in NPDT] for t in NPDT]
             wconst = lambda sp: float(getattr(sp.weighting, 'const', float('nan')))
             inner = 'None'
             if (op.is_linear and X.is_uniformly_weighted and R.is_uniformly_weighted and X.exponent == 2.0
@@ -314,12 +328,12 @@ def cases_op(rng, tier):
             oq = lambda v: 'None' if v is None else '(Some %s)' % C.q(v)
             doms = C.lst(dom, lambda d: '(%s, %s, %s%%Z, (%s, %s))' % (C.q(d[0]), C.q(d[1]), C.z(d[2]),
                                                                     C.b(d[3][0]), C.b(d[3][1])))
-            term = ('{| o_adjguard := %s; o_m := %s; o_c := %s; o_dom := %s; o_nnew := %s%%Z; o_off := %s; '
+            term = ('{| o_adjguard := %s; o_m := %s; o_c := %s; o_ccast := %s; o_cinv := %s; o_padconst := %s; o_dom := %s; o_nnew := %s%%Z; o_off := %s; '
                     'o_flags := %s; o_rmin := %s; o_rmax := %s; o_rcs := %s; o_offset := %s%%Z; o_islinear := %s; o_axes := %s%%nat; '
                     'o_x := %s; o_fx := %s; o_y := %s; o_ay := %s; o_inv := %s; o_w := (%s, %s, %s); '
                     'o_exp := (%s, %s, %s); o_dtype := (%s, %s, %s)%%nat; o_inner := %s; o_kept := %s |}'
                     % (C.b(adjguard and not (op.domain.is_uniformly_weighted and op.range.is_uniformly_weighted)),
-                       T.PMODE[mode], C.q(c), doms, C.zs(nnew),
+                       T.PMODE[mode], C.q(c), C.qs(ccast), C.qss(cinv), C.q(float(np.real(op.pad_const))), doms, C.zs(nnew),
                        C.lst(offs, lambda o: 'None' if o is None else '(Some %s%%Z)' % C.z(o)),
                        C.lst(kw_flags, lambda f: '(%s, %s)' % (C.b(f[0]), C.b(f[1]))),
                        C.qs(R.min_pt.tolist()), C.qs(R.max_pt.tolist()), C.qs(R.cell_sides.tolist()),
@@ -738,6 +752,115 @@ def probes(rng, tier):
     out += input_kept_probes(rng, tier)
     out += inherit_probes(rng, tier)
     out += nonextended_probes(rng, tier)
+    out += padconst_dtype_probes(rng, tier)
+    out += unchanged_axis_offset_probes(rng, tier)
+    return out
+
+
+def padconst_dtype_probes(rng, tier):
+    """pad_const is cast to the RANGE dtype (not the domain's): domain and range of different dtypes (float32, float64,
+    int64, complex), constants not representable in the narrower type, is_linear == (cast constant == 0), every mode
+    constructs and applies; range dtype through discr_kwargs and through an explicit range; array level with out=."""
+    out = []
+    pre = "import numpy as np, odl\nfrom odl.util.numerics import resize_array\n"
+    pairs = [('float32', 'float64'), ('float64', 'float32'), ('int64', 'float64'), ('float64', 'complex128'),
+             ('float32', 'complex64'), ('float32', 'float32'), ('int64', 'int64')]
+    consts = [0.1, 0.5, 1.0 / 3, 0, -0.7, 2]
+    for dd, rd in pairs:
+        for via in ('discr_kwargs', 'explicit-range'):
+            for c in (consts if tier != 'quick' else rng.sample(consts, 3) + [0.5]):
+                n = rng.randint(2, 4); pl, pr = rng.randint(1, 2), rng.randint(0, 2)
+                vals = [rng.randint(-5, 5) for _ in range(n)]
+                ctor = ("op=odl.ResizingOperator(X,ran_shp=(%d,),offset=%d,pad_const=%r,discr_kwargs={'dtype':%r})\n"
+                        % (n + pl + pr, pl, c, rd)) if via == 'discr_kwargs' else \
+                       ("Y=odl.uniform_discr(%r,%r,%d,dtype=%r)\nop=odl.ResizingOperator(X,Y,pad_const=%r)\n"
+                        % (-float(pl), float(n + pr), n + pl + pr, rd, c))
+                rp = pre + ("X=odl.uniform_discr(0,%r,%d,dtype=%r)\n%s"
+                            "want=np.array(%r,dtype=op.range.dtype)\nx=X.element(np.array(%r,dtype=%r))\nr=np.asarray(op(x))\n"
+                            "observed=(op.pad_const.tolist(),str(op.pad_const.dtype),bool(op.is_linear),r.tolist())\n"
+                            "expected=(want.tolist(),str(op.range.dtype),bool(want==0),'x in the middle, want outside')\n"
+                            "ok=bool(str(op.range.dtype)==%r and op.pad_const.dtype==op.range.dtype and op.pad_const==want "
+                            "and bool(op.is_linear)==bool(want==0) and r.dtype==op.range.dtype "
+                            "and np.array_equal(r[%d:%d],np.array(%r,dtype=%r).astype(r.dtype)) "
+                            "and np.all(r[:%d]==want) and np.all(r[%d:]==want))\n"
+                            % (float(n), n, dd, ctor, c, vals, dd, rd, pl, pl + n, vals, dd, pl, pl + n))
+                ok, _ = _run(rp)
+                out.append(C.Probe(ok, 'padconst-dtype-%s-to-%s' % (dd, rd),
+                                   'pad_const=%r with domain dtype %s and range dtype %s (%s): stored and padded in the range dtype, '
+                                   'is_linear iff the cast constant is 0' % (c, dd, rd, via), rp))
+        # the other modes must construct and apply across dtypes as well (pad_const default)
+        for mode in MODES[1:]:
+            rp = pre + ("X=odl.uniform_discr(0,4.0,4,dtype=%r)\nop=odl.ResizingOperator(X,ran_shp=(7,),offset=2,pad_mode=%r,"
+                        "discr_kwargs={'dtype':%r})\nx=np.array([1,2,3,4],dtype=%r)\nr=np.asarray(op(x))\n"
+                        "expected=resize_array(x.astype(op.range.dtype),(7,),offset=2,pad_mode=%r)\nobserved=r\n"
+                        "ok=bool(op.is_linear and r.dtype==op.range.dtype and np.array_equal(r,expected))\n" % (dd, mode, rd, dd, mode))
+            ok, _ = _run(rp)
+            out.append(C.Probe(ok, 'padconst-dtype-%s-to-%s' % (dd, rd), '%s across dtypes %s -> %s' % (mode, dd, rd), rp))
+    # .inverse carries the constant: for an operator that grows in one axis and shrinks in the other the inverse pads too
+    for c in (0.5, -2, 0.1):
+        for dd, rd in (('float64', 'float64'), ('float32', 'float64'), ('float64', 'float32')):
+            rp = pre + ("X=odl.uniform_discr([0,0],[2.0,4.0],(2,4),dtype=%r)\n"
+                        "op=odl.ResizingOperator(X,ran_shp=(4,2),offset=(1,1),pad_const=%r,discr_kwargs={'dtype':%r})\ninv=op.inverse\n"
+                        "want=np.array(np.array(%r,dtype=op.range.dtype),dtype=X.dtype)\n"
+                        "y=op.range.element(np.arange(1.,9).reshape(4,2))\nr=np.asarray(inv(y))\n"
+                        "expected=np.full((2,4),want); expected[:,1:3]=np.arange(1.,9).reshape(4,2)[1:3,:]\nobserved=r\n"
+                        "ok=bool(inv.pad_const==want and inv.pad_const.dtype==X.dtype and np.array_equal(r,expected.astype(X.dtype)))\n"
+                        % (dd, c, rd, c))
+            ok, _ = _run(rp)
+            out.append(C.Probe(ok, 'inverse-padconst', 'op.inverse pads with the operator constant (cast to its own range dtype): '
+                               'pad_const=%r, %s -> %s' % (c, dd, rd), rp))
+    # array level: arr and out of different dtypes
+    for ad, od in [('float32', 'float64'), ('int64', 'float64'), ('float64', 'complex128')]:
+        for direction in DIRS:
+            c = 0.1 if direction == 'forward' else 0
+            rp = pre + ("arr=np.array([1,2,3],dtype=%r); out=np.full(6,np.nan,dtype=%r)\n"
+                        "r=resize_array(arr,(6,),offset=1,pad_const=%r,direction=%r,out=out)\n"
+                        "expected=np.array([%r,1,2,3,%r,%r],dtype=%r); observed=out\nok=bool(r is out and np.array_equal(out,expected))\n"
+                        % (ad, od, c, direction, c, c, c, od))
+            ok, _ = _run(rp)
+            out.append(C.Probe(ok, 'padconst-dtype-%s-to-%s' % (ad, od),
+                               'resize_array(arr %s, out %s, %s): the constant is written in the dtype of out' % (ad, od, direction), rp))
+    return out
+
+
+def unchanged_axis_offset_probes(rng, tier):
+    """An offset given for an axis that is NOT resized (scalar offset, or per-axis) must not move the range: interval
+    and cell sides of that axis are the domain's, op.offset is 0 there and the array is copied along it."""
+    out = []
+    pre = "import numpy as np, odl\nfrom odl.util.numerics import resize_array\n" + _REF_SRC
+    for k in range(8 if tier == 'quick' else 40):
+        n0, n1 = rng.randint(2, 4), rng.randint(2, 4)
+        grow = rng.randint(2, 4)
+        cs0, cs1 = rng.choice([0.5, 1.0, 0.25]), rng.choice([0.5, 1.0, 2.0])
+        mn = [rng.choice([0.0, -1.0]), rng.choice([0.0, 3.0])]
+        flags = rng.choice([False, True, [(True, False), (False, True)]])
+        which = k % 3      # 0: scalar offset, axis 1 unchanged; 1: per-axis offset; 2: 1-d unchanged axis with an offset
+        mode = rng.choice(['constant', 'order0', 'order1'])     # legal for every padding length used here (n >= 2)
+        if which == 2:
+            off = rng.choice([1, 2, 3])
+            rp = pre + ("X=odl.uniform_discr(%r,%r,%d,nodes_on_bdry=%r)\nop=odl.ResizingOperator(X,ran_shp=(%d,),offset=%d,pad_mode=%r,discr_kwargs={'nodes_on_bdry':%r})\n"
+                        "x=X.element(np.arange(1.,%d))\nobserved=(op.range.min_pt.tolist(),op.range.max_pt.tolist(),list(op.offset))\n"
+                        "expected=(X.min_pt.tolist(),X.max_pt.tolist(),[0])\n"
+                        "ok=bool(op.range==X and list(op.offset)==[0] and np.array_equal(np.asarray(op(x)),np.asarray(x)))\n"
+                        % (mn[0], mn[0] + (n0 if flags is not True else n0 - 1) * cs0, n0, bool(flags is True), n0, off, mode, bool(flags is True), n0 + 1))
+        else:
+            o0 = rng.randint(0, grow) if which == 1 else rng.randint(1, grow)
+            offarg = o0 if which == 0 else (o0, rng.choice([1, 2]))
+            rp = pre + ("X=odl.uniform_discr(%r,%r,%r,nodes_on_bdry=%r)\n"
+                        "op=odl.ResizingOperator(X,ran_shp=(%d,%d),offset=%r,pad_mode=%r,discr_kwargs={'nodes_on_bdry':%r})\nR=op.range\n"
+                        "cs=X.cell_sides\nobserved=(R.min_pt.tolist(),R.max_pt.tolist(),R.cell_sides.tolist(),list(op.offset))\n"
+                        "expected=([X.min_pt[0]-%d*cs[0],X.min_pt[1]],[X.max_pt[0]+%d*cs[0],X.max_pt[1]],cs.tolist(),[%d,0])\n"
+                        "x=np.arange(1.,%d).reshape(%r)\n"
+                        "ok=bool(np.allclose(observed[0],expected[0]) and np.allclose(observed[1],expected[1]) and np.allclose(observed[2],expected[2]) "
+                        "and [int(o) for o in op.offset]==[%d,0] and np.array_equal(np.asarray(op(x)),ref_resize(x,(%d,%d),[%d,0],%r,0)))\n"
+                        % (mn, [mn[0] + n0 * cs0 - (0 if flags is False else (cs0 if flags is True else cs0 * 0.5)),
+                                mn[1] + n1 * cs1 - (0 if flags is False else (cs1 if flags is True else cs1 * 0.5))],
+                           [n0, n1], flags, n0 + grow, n1, offarg, mode, flags, o0, grow - o0, o0, n0 * n1 + 1, [n0, n1],
+                           o0, n0 + grow, n1, o0, mode))
+        ok, _ = _run(rp)
+        out.append(C.Probe(ok, 'range-unchanged-axis-offset',
+                           'offset given for an axis that is not resized (%s) must not move the range'
+                           % ['scalar offset', 'per-axis offset', '1-d, same size'][which], rp))
     return out
 
 
@@ -1037,7 +1160,8 @@ def search(rng, broken):
         if detail.get('input_kept') is False and mode:
             cands = input_kept_probes(rng, 'thorough', only_mode=mode) + cands
         if 'domain_weighting' in detail:
-            cands += inherit_probes(rng, 'quick')
+            cands += inherit_probes(rng, 'quick') + padconst_dtype_probes(rng, 'thorough') \
+                + unchanged_axis_offset_probes(rng, 'thorough')
     if not cands:
         cands = (nonextended_probes(rng, 'thorough') + transpose_probes(rng, 'thorough')
                  + range_flag_probes(rng, 'thorough') + input_kept_probes(rng, 'quick') + inherit_probes(rng, 'quick'))
